@@ -718,6 +718,21 @@ def extreme_structures():
                     if ph != 'act':
                         txt += '[act]\n% true\n'
                     yield 'filler-%s-%s-%s-%d' % (fname, ph, where, n), txt
+    # definitions that refer to the symbol they define (alone, and followed by a use of the symbol), in each phase
+    selfs = [('string', 'x@[S]@'), ('list', 'a @[S]@ b'), ('path', '-rel S sub'), ('path', '@[S]@/sub'),
+             ('line-matcher', '! S'), ('text-matcher', '( is-empty || S )'), ('text-transformer', '( strip | S )'),
+             ('program', '@ S arg'), ('file-matcher', '( type file && S )'), ('files-matcher', '! S'),
+             ('integer-matcher', '( == 1 || S )'), ('text-source', '@[S]@')]
+    uses = {'string': 'file f.txt = "@[S]@"', 'list': 'run % echo @[S]@', 'path': 'file @[S]@/x.txt',
+            'line-matcher': 'file f.txt = "a" -transformed-by filter S', 'text-matcher': 'file g.txt = "a"',
+            'text-transformer': 'file f.txt = "a" -transformed-by S', 'program': 'run @ S',
+            'file-matcher': 'dir d', 'files-matcher': 'dir d', 'integer-matcher': 'dir d', 'text-source': 'file f.txt = S'}
+    for typ, val in selfs:
+        for ph in ('setup', 'before-assert', 'assert', 'cleanup'):
+            d = 'def %s S = %s' % (typ, val)
+            yield 'self-ref-%s-%s' % (typ, ph), '[%s]\n%s\n' % (ph, d)
+            if ph != 'assert':
+                yield 'self-ref-used-%s-%s' % (typ, ph), '[%s]\n%s\n%s\n' % (ph, d, uses[typ])
     yield 'symbol-chain-300', ('[setup]\ndef string A0 = x\n' + ''.join('def string A%d = @[A%d]@\n' % (i + 1, i)
                                                                          for i in range(300))
                                + 'file f.txt = @[A300]@\n')
